@@ -11,7 +11,8 @@ Every check has two legs (DESIGN.md section 1):
 import fcntl, hashlib, json, os, re, subprocess, sys, time, shutil
 
 VERIF = os.path.dirname(os.path.dirname(os.path.abspath(__file__)))
-COQ = os.path.join(VERIF, "coq")
+COQ_MAIN = os.path.join(VERIF, "coq")
+COQ = COQ_MAIN
 HARNESS = os.path.join(VERIF, "harness")
 # VERIF_REPO (development aid only): run the checks against a scratch copy of
 # the repository instead of /repo; work files and evidence then go to a
@@ -23,7 +24,27 @@ if REPO == "/repo":
 else:
     WORK = os.path.join(VERIF, "work", "alt_" + hashlib.sha1(REPO.encode()).hexdigest()[:8])
     EVID = os.path.join(WORK, "evidence")
+    # a scratch repository gets its own copy of the Coq tree (sources and
+    # compiled files, timestamps preserved) so that facts regenerated from the
+    # scratch sources never touch the development that /repo is checked with
+    COQ = os.path.join(WORK, "coq")
 REPLAYS = os.path.join(WORK, "replays")
+
+
+def sync_alt_coq():
+    if COQ == COQ_MAIN:
+        return
+    os.makedirs(WORK, exist_ok=True)
+    subprocess.run(["rsync", "-a", "--delete", "--exclude", "Generated/*.v", "--exclude", "Generated/*.vo",
+                    "--exclude", "Generated/*.glob", "--exclude", "Generated/.*.aux",
+                    COQ_MAIN + "/", COQ + "/"], check=True)
+    gen = os.path.join(COQ, "Generated")
+    os.makedirs(gen, exist_ok=True)
+    # first time: start from the main tree's generated files (extract rewrites them if they differ)
+    for f in os.listdir(os.path.join(COQ_MAIN, "Generated")):
+        dst = os.path.join(gen, f)
+        if not os.path.exists(dst):
+            shutil.copy2(os.path.join(COQ_MAIN, "Generated", f), dst)
 
 GOENV = dict(os.environ, GOFLAGS="-mod=mod", GOPROXY="off", GOSUMDB="off",
              GOTOOLCHAIN="local", CGO_ENABLED="0")
@@ -118,6 +139,7 @@ def regenerate():
 def ensure_coq():
     """Full .vo build of the development (incremental). Returns (ok, log)."""
     with Lock("coq"):
+        sync_alt_coq()
         ok, msg = regenerate()
         if not ok:
             return False, "extract failed:\n" + msg
@@ -127,7 +149,7 @@ def ensure_coq():
             rc, out, err = sh(["coq_makefile", "-f", "_CoqProject", "-o", "Makefile"], cwd=COQ)
             if rc != 0:
                 return False, out + err
-        rc, out, err = sh(["timeout", "3000", "make", "-j16"], cwd=COQ, timeout=3100)
+        rc, out, err = sh(["timeout", "3000", "make", "-k", "-j16"], cwd=COQ, timeout=3100)
         return rc == 0, out + err
 
 
@@ -345,20 +367,27 @@ class Check:
         pid = self.ID
         problems = []       # broken obligations / correspondences (names)
         # Leg A
-        ok_build, blog = ensure_coq()
+        # The whole development is built with `make -k`: a file that does not
+        # compile (e.g. another property's obligation broken by a source
+        # change) must not fail THIS property; what decides is whether this
+        # property's own file and its dependencies check.
+        ok_all, blog = ensure_coq()
         audit = audit_sources()
-        if ok_build:
-            pf = check_property_file(pid)
-        else:
-            pf = dict(ok=False, theorems=theorem_names(pid), closed=0, assumption_blocks=0,
-                      axioms=[], disallowed=[], log=blog[-4000:])
+        pf = check_property_file(pid)
+        ok_build = pf["rc"] == 0 or "inconsistent assumptions" not in pf["log"] and "Cannot find" not in pf["log"] and "Unable to locate" not in pf["log"]
         obligations = len(pf["theorems"]) + 1          # +1: audit grep clean
         discharged = (pf["assumption_blocks"] if pf["ok"] else 0)
         discharged = min(discharged, len(pf["theorems"])) + (0 if audit else 1)
-        if not ok_build:
-            problems.append("coq-build: development does not compile: " + blog[-1500:])
-        elif not pf["ok"]:
+        if not pf["ok"]:
             problems.append("theorems of Properties/%s.v do not check: %s" % (pid, pf["log"][-1500:]))
+        try:
+            xerr = json.load(open(os.path.join(WORK, "extract_errors.json")))
+        except (OSError, ValueError):
+            xerr = {}
+        if "extract_" + pid.lower() in xerr:
+            obligations += 1
+            problems.append("facts could not be regenerated from source (lib/extract_%s.py): %s" % (
+                pid.lower(), xerr["extract_" + pid.lower()]))
         if audit:
             problems.append("forbidden construct in Coq sources: " + "; ".join(audit[:5]))
 
@@ -379,11 +408,9 @@ class Check:
                     problems.append("harness run failed (rc=%d): %s" % (rc, err[-2000:]))
         mism = []
         coq_log = ""
-        if cases and ok_build:
+        if cases:
             mism, coq_log, cprob = self.evaluate_model(cases)
             problems.extend(cprob)
-        elif cases:
-            pass
 
         # decision
         viol_lines, known_lines = [], []
@@ -438,7 +465,7 @@ class Check:
             partial_clauses=self.PARTIAL_CLAUSES,
         )
         cov.update(self.extra_coverage(cases))
-        if tier == "thorough" and ok_build:
+        if tier == "thorough" and pf["ok"]:
             cov["coqchk"] = self.coqchk()
         write_evidence(pid, tier, seed, self.LEVEL, cov, self.ASSUMPTIONS, time.time() - t0, len(viol_lines))
         for l in known_lines:
